@@ -71,6 +71,7 @@ def correspondence(ctx):
     for s_ in mark_structures(ctx):
         for prof_ in ('um', 'up', 'op', 'nick'):
             cases.append(f'prof|{prof_}|enforce|f|b|{hexs(s_)}|')
+    cases += fuzz_cases(ctx, {0, 1, 2, 3})      # coverage-guided search of the tree under check (only when the source changed / thorough)
     res = run_cases(cases, ctx.work)
     # second phase: classify every accepted output and enforce it again
     phase2 = []
